@@ -3,7 +3,8 @@
 The REAL merge_adm / _update_node_delegations / unmerge_adm of Neo4jCBMGraph and snapshot / rollback of
 ABCCBMPropertyGraph are run over the in-memory shared store (NetworkXPropertyGraph) through a harness-side class that
 borrows the methods (DESIGN section 6); fim.graph.resources.neo4j_cbm.Neo4jADMGraph is set to NetworkXADMGraph and the
-two modules' `uuid` is replaced by a counter so that temporary / snapshot graph ids are reproducible.  Nothing in the
+two modules' `uuid.uuid4` is replaced by a counter (the rest of the uuid module stays the real one) so that temporary /
+snapshot graph ids are reproducible.  Nothing in the
 repository is edited.
 
 One case = a family of 1-4 hand-built delegation models (ADMs) sharing stitch nodes + several histories of
@@ -42,8 +43,15 @@ def impl():
         def uuid4(cls):
             cls.n += 1
             return 'u-%d' % cls.n
-    ncbm.uuid = FakeUuid
-    acbm.uuid = FakeUuid
+    # a TRANSPARENT stand-in for the `uuid` module the two modules imported: everything is the real thing
+    # (uuid1/3/5, UUID, NAMESPACE_*, ...), only uuid4 draws from the counter so that temporary / snapshot ids are
+    # reproducible.  A change that uses another uuid function therefore runs as written.
+    import uuid as _real_uuid, types
+    proxy = types.ModuleType('uuid')
+    proxy.__dict__.update({k: v for k, v in _real_uuid.__dict__.items() if k not in ('__name__',)})
+    proxy.uuid4 = FakeUuid.uuid4
+    ncbm.uuid = proxy
+    acbm.uuid = proxy
 
     class MemCBM(NetworkXPropertyGraph, ABCCBMPropertyGraph):
         merge_adm = ncbm.Neo4jCBMGraph.merge_adm
@@ -413,6 +421,26 @@ def inverse_histories(nadm, rng):
     return out
 
 
+def snapshot_histories(nadm, rng):
+    """two (or three) snapshots outstanding at the same time, the combined model changed between them, rollbacks in
+    both orders (to the earlier one first / to the later one first, then the earlier one)"""
+    ks = list(range(nadm))
+    rng.shuffle(ks)
+    a, b = ks[0], ks[1]
+    c = ks[2] if nadm > 2 else None
+    third = [['merge', c]] if c is not None else [['unmerge', 'adm-%d' % (a + 1)]]
+    out = [
+        [['merge', a], ['snap'], ['merge', b], ['snap']] + third + [['rollback', 0]],
+        [['merge', a], ['snap'], ['merge', b], ['snap']] + third + [['rollback', 1], ['rollback', 0]],
+        [['merge', a], ['merge', b], ['snap'], ['unmerge', 'adm-%d' % (b + 1)], ['snap'], ['unmerge', 'adm-%d' % (a + 1)],
+         ['rollback', 0], ['rollback', 1]],
+    ]
+    if c is not None:
+        out.append([['merge', a], ['snap'], ['merge', b], ['snap'], ['merge', c], ['snap'], ['unmerge', 'adm-%d' % (a + 1)],
+                    ['rollback', 1], ['rollback', 2], ['rollback', 0]])
+    return out
+
+
 # ----------------------------------------------------------------------------------------------
 # Coq terms
 # ----------------------------------------------------------------------------------------------
@@ -756,7 +784,7 @@ class Histories(Stream):
     shard = 40
     rule = ('one case = a family of 1-4 delegation models sharing up to 5 stitch nodes + 3-30 histories (random '
             'interleavings of merge/unmerge/snapshot/rollback up to 12 steps, all merge permutations, merge;unmerge and '
-            'snapshot;merge;rollback probes); non-trivial = at least two sources share a node and some history merges '
+            'snapshot;merge;rollback probes, two or three snapshots outstanding with rollbacks in both orders); non-trivial = at least two sources share a node and some history merges '
             'two of them; distinct by family and histories')
 
     def gen(self, rng, tier):
@@ -771,6 +799,8 @@ class Histories(Stream):
                 hs += perm_histories(k)
             if r > 0.5 and k >= 2:
                 hs += inverse_histories(k, rng)
+            if k >= 2 and (i % 3 == 0 or i < 12):
+                hs += snapshot_histories(k, rng)
             fam['hists'] = hs
             out.append(fam)
         return out
@@ -844,6 +874,8 @@ class Histories(Stream):
             h['histories'] += len(c['hists'])
             for hist, (_, steps) in zip(c['hists'], o['runs']):
                 prev = None
+                if sum(1 for op in hist if op[0] == 'snap') >= 2 and any(op[0] == 'rollback' for op in hist):
+                    h['histories_two_or_more_snapshots_and_rollback'] += 1
                 for op, s in zip(hist, steps):
                     h['op_%s_%s' % (op[0], 'ok' if s['res'] == 'ok' else s['res'])] += 1
                     if s['cbm'] is not None:
@@ -1015,6 +1047,8 @@ CORPUS = [
      'hists': [[['merge', 0], ['merge', 1]], [['merge', 1], ['merge', 0]],
                [['merge', 0], ['merge', 1], ['unmerge', 'adm-2']],
                [['merge', 0], ['snap'], ['merge', 1], ['rollback', 0]],
+               [['merge', 0], ['snap'], ['merge', 1], ['snap'], ['unmerge', 'adm-1'], ['rollback', 0]],
+               [['merge', 0], ['snap'], ['merge', 1], ['snap'], ['unmerge', 'adm-1'], ['rollback', 1], ['rollback', 0]],
                [['merge', 0], ['merge', 1], ['unmerge', 'adm-1'], ['unmerge', 'adm-2'], ['merge', 1]]]},
     # an emptied combined model: graph_exists() is False again, unmerge / snapshot of it raise
     {'mode': 'corpus-emptied', 'adms': [
@@ -1051,11 +1085,13 @@ class RealModels(Histories):
         k = len(fam['adms'])
         perms = perm_histories(k)
         if tier == 'quick':
-            hs = [perms[0], perms[-1]] + rng.sample(perms[1:-1], 2) + [gen_history(rng, k, 8)] + inverse_histories(k, rng)[:3]
+            hs = [perms[0], perms[-1]] + rng.sample(perms[1:-1], 2) + [gen_history(rng, k, 8)] + inverse_histories(k, rng)[:3] + \
+                snapshot_histories(k, rng)[:2]
             return [dict(copy.deepcopy(fam), hists=hs)]
         out = []
         for i in range(0, len(perms), 6):
-            out.append(dict(copy.deepcopy(fam), hists=perms[i:i + 6] + [gen_history(rng, k, 12)] + inverse_histories(k, rng)))
+            out.append(dict(copy.deepcopy(fam), hists=perms[i:i + 6] + [gen_history(rng, k, 12)] + inverse_histories(k, rng) +
+                            snapshot_histories(k, rng)))
         return out
 
     def corpus(self):
